@@ -255,6 +255,16 @@ def edge_coverage(A, g):
     return (not bad), (bad[0] if bad else '')
 
 
+def check_declaration_loop(A, R: Report, rid: str):
+    """Every declared input of every task is processed: the loops of _process_dependencies never stop early."""
+    fpd = A.func('Chain._process_dependencies')
+    loops = [n for n in A.typer.own_nodes(fpd) if isinstance(n, ast.For)]   # the declaration loops themselves (search loops of helpers may return early)
+    bad = [lp for lp in loops if not loop_runs_to_end(lp)]
+    R.check(not bad, rid, 'Chain._process_dependencies: loops', key_of('declaration-loop', len(bad)), 'all tasks and all their declarations are processed',
+            f'the loop `for {src(bad[0].target)} in {src(bad[0].iter)[:50]}` can end early (break / return): declarations after that point are neither resolved nor checked, so a missing required input is not reported and supplied inputs stay unbound' if bad else '',
+            where=where(fpd, bad[0]) if bad else where(fpd))
+
+
 def check_resolver_call(A, R: Report, rid: str):
     """The name Chain._process_dependencies hands to the resolver is `<own namespace>::name` (or already prefixed), and the
     resolver is told not to guess namespaces."""
@@ -393,6 +403,7 @@ def run(A, R: Report, thorough: bool):
         R.check(p is None, 'R08.2', 'Chain._process_dependencies: except ' + h.label, key_of('missing-input', h.label), 'continues only for optional inputs',
                 'a missing *required* input can be skipped silently: the chain is built with a dangling declaration', witness=cfg.describe_path(p) if p else None, where=where(fpd, h.ast))
 
+    check_declaration_loop(A, R, 'R08.2')
     R.rule('R08.6', 'the name handed to the resolver is qualified with the declaring config\'s namespace whenever it has one, and resolution is namespace-exact', floor=1)
     check_resolver_call(A, R, 'R08.6')
 
